@@ -140,6 +140,12 @@ func (t *FSTree) ReadObjectParts(buf []byte, addr oid.Address, rng common.Payloa
 	}
 
 	if !partialRange {
+		if rng.IsSet() {
+			// "from 0" is unsatisfiable for an empty payload, same answer as GetRangeStream
+			if _, _, err = rng.Resolve(pldLen); err != nil {
+				return 0, nil, err
+			}
+		}
 		return n, stream, nil
 	}
 
